@@ -92,6 +92,7 @@ class World:
         self.garbage, self.garbage_p = garbage, garbage_p  # hostile value at any position
         self.returns = []              # (response path, value returned by an explicit resolver)
         self.dir_calls = []            # (directive, path, canon(directive_args), args) recorded by @vtrec
+        self.arg_faults = set()        # (field name, argument name): the @vtgate argument hook raises (C08)
         self.shared_exc = None         # ONE exception instance raised by every "raise_shared" fault (known finding F11)
         self.label = None              # bundle label (C17): closures registered for another schema name must not run
         self.source_log = []           # subscription source events: ("start", field, canon(args)) ("event", i) ("finish",)
